@@ -130,6 +130,51 @@ def one_case(rng):
     return None
 
 
+def stab_case(rng):
+    """a .stab section (12-byte records: n_strx word, n_type byte, n_other byte, n_desc half, n_value word) placed after other
+    sections: every record with its fields and its FILE offset, in order, repeatedly"""
+    from elftools.elf.elffile import ELFFile
+    from tasks._img import sections_image
+    cls, le = rng.choice([32, 64]), rng.random() < 0.5
+    e = '<' if le else '>'
+    recs = [(rng.randrange(1 << 32), rng.randrange(256), rng.randrange(256), rng.randrange(1 << 16), rng.randrange(1 << 32))
+            for _ in range(rng.choice([0, 1, 2, 5, 9]))]
+    data = b''.join(struct.pack(e + 'IBBHI', *r) for r in recs)
+    img, offs = sections_image(cls, le, [dict(name='.text', type=1, data=b'\x90' * rng.choice([1, 7, 40])),
+                                         dict(name='.stab', type=1, data=data, entsize=12, align=4), dict(name='.stabstr', type=3, data=b'\x00a\x00')])
+    sec = ELFFile(io.BytesIO(img)).get_section_by_name('.stab')
+    want = [dict(n_strx=r[0], n_type=r[1], n_other=r[2], n_desc=r[3], n_value=r[4], n_offset=offs[1] + 12 * i) for i, r in enumerate(recs)]
+    for _ in range(2):
+        got = [{k: st[k] for k in ('n_strx', 'n_type', 'n_other', 'n_desc', 'n_value', 'n_offset')} for st in sec.iter_stabs()]
+        if got != want:
+            i = next((k for k, (a, b) in enumerate(zip(got, want)) if a != b), min(len(got), len(want)))
+            return ('stab record %d is %r, encoded %r (%d vs %d records; the section starts at file offset %d)' % (
+                i, got[i] if i < len(got) else None, want[i] if i < len(want) else None, len(got), len(want), offs[1]),
+                'class %d le=%s' % (cls, le), img.hex())
+    return None
+
+
+@task('c14-stabs-differential', ['C14'], kind='bounded')
+def stabs(tier, seed):
+    rng = random.Random(seed + 1415)
+    n = 100 if tier == 'quick' else 4000
+    bad = None
+    for _ in range(n):
+        try:
+            r = stab_case(rng)
+        except Exception as e:
+            import traceback
+            r = ('real code raised %r (%s)' % (e, traceback.format_exc().splitlines()[-3].strip()), '', '')
+        if r:
+            bad = dict(confirmed=True, how='StabSection.iter_stabs on an image with a generated .stab section', input=r[2][:2500],
+                       configuration=r[1], observed=r[0][:700], expected='the encoded records with their file offsets')
+            break
+    obs = [dict(name='bounded:elf/sections.py:stab records', kind='bounded', verdict='refuted' if bad else 'proved',
+                backend='ground-eval(seeded differential, %d images)' % n, time=0.0, bounded=True, detail=bad and bad['observed'], native=bad)]
+    return dict(obligations=obs, assumptions=['BOUNDED: sections of 0-9 records'],
+                functions=[dict(function='elftools/elf/sections.py:StabSection.iter_stabs (end to end)', kind='bounded differential')], exhaustive=False)
+
+
 @task('c14-notes-differential', ['C14'], kind='bounded')
 def notes(tier, seed):
     rng = random.Random(seed + 1414)
